@@ -79,6 +79,7 @@ PROPS["C18"] = dict(
         dict(name="sessions_exhaustive", run="^TestC18ExhaustiveSessions$", shards=(8, 16), timeout=(200, 1200)),
         dict(name="element_types", run="^TestC18ElementTypes$", checks=(6000, 60000), shards=(2, 8), timeout=(200, 1200)),
         dict(name="sessions_rapid", run="^TestC18RapidSessions$", checks=(4000, 20000), shards=(2, 16), timeout=(200, 1200), shrinktime="10s"),
+        dict(name="type_history", run="^TestC18TypeHistory$", checks=(600, 6000), shards=(8, 16), timeout=(200, 1200), shrinktime="10s"),
     ],
 )
 
